@@ -13,6 +13,13 @@ import (
 	"sync"
 	"sync/atomic"
 
+	"context"
+	"hash/crc32"
+	"sort"
+
+	"github.com/TarsCloud/TarsGo/tars"
+	"github.com/TarsCloud/TarsGo/tars/protocol/res/endpointf"
+	tarsreg "github.com/TarsCloud/TarsGo/tars/registry"
 	"github.com/TarsCloud/TarsGo/tars/selector"
 	"github.com/TarsCloud/TarsGo/tars/selector/consistenthash"
 	"github.com/TarsCloud/TarsGo/tars/selector/modhash"
@@ -41,6 +48,10 @@ func main() {
 	if len(os.Args) > 2 {
 		fmt.Sscan(os.Args[2], &seed)
 	}
+	mode := "all"
+	if len(os.Args) > 3 {
+		mode = os.Args[3]
+	}
 	var selections, updates int64
 	var mu sync.Mutex
 	var problems []string
@@ -68,6 +79,9 @@ func main() {
 			mkSel{fmt.Sprintf("random/w=%v", w), func() selector.Selector { return random.New(w) }},
 			mkSel{fmt.Sprintf("modhash/w=%v", w), func() selector.Selector { return modhash.New(w) }},
 			mkSel{fmt.Sprintf("consistenthash/w=%v", w), func() selector.Selector { return consistenthash.New(w, consistenthash.KetamaHash) }})
+	}
+	if mode == "hash" {
+		sels = nil
 	}
 	for si, ms := range sels {
 		s := ms.mk()
@@ -120,6 +134,219 @@ func main() {
 		}
 		wg.Wait()
 	}
-	b, _ := json.Marshal(map[string]interface{}{"selections": selections, "updates": updates, "problems": problems})
+	hs, hu := hashConc(iters, seed, problem)
+	ms, mu2 := managerConc(iters, seed, problem)
+	hs += ms
+	selections += hs
+	updates += hu + mu2
+	b, _ := json.Marshal(map[string]interface{}{"selections": selections, "updates": updates, "problems": problems, "hash_lookups_concurrent_with_updates": hs})
 	fmt.Printf("C13RACE %s\n", b)
+}
+
+// hashConc - hash routing CONCURRENT with membership changes (C14): for mod-hash and consistent hash (weighted and
+// not), six readers look codes up while one updater alternates between the endpoint sets B and B+X - by Add / Remove
+// and by Refresh.  Every answer must be the endpoint the code has in B or in B+X (for mod-hash: the slot of the list
+// before or after; X is appended and removed again, so the list is always B or B++[X]): never a third endpoint,
+// never an error, never a panic.  The expectations come from selectors of this program's own that nobody updates.
+func hashConc(iters int, seed int64, problem func(string)) (lookups, updates int64) {
+	type mk struct {
+		name string
+		f    func() selector.Selector
+	}
+	var kinds []mk
+	for _, w := range []bool{false, true} {
+		w := w
+		kinds = append(kinds,
+			mk{fmt.Sprintf("modhash/w=%v", w), func() selector.Selector { return modhash.New(w) }},
+			mk{fmt.Sprintf("consistenthash/w=%v", w), func() selector.Selector { return consistenthash.New(w, consistenthash.KetamaHash) }})
+	}
+	hep := func(i int) endpoint.Endpoint {
+		e := endpoint.Endpoint{Host: fmt.Sprintf("10.9.%d.%d", 1+i/200, i%200), Port: 10000, Timeout: 3000, Istcp: 1, Weight: int32(4 + 4*(i%5)), WeightType: 1, Proto: "tcp"}
+		e.Key = e.String()
+		return e
+	}
+	for ki, k := range kinds {
+		for _, how := range []string{"add-remove", "refresh"} {
+			rng := rand.New(rand.NewSource(seed + int64(ki)))
+			n := 16 + rng.Intn(25)
+			var base []endpoint.Endpoint
+			for i := 0; i < n; i++ {
+				base = append(base, hep(i))
+			}
+			x := hep(500 + rng.Intn(100))
+			with := append(append([]endpoint.Endpoint(nil), base...), x)
+			before, after := k.f(), k.f()
+			before.Refresh(append([]endpoint.Endpoint(nil), base...))
+			after.Refresh(append([]endpoint.Endpoint(nil), with...))
+			codes := make([]uint32, 400)
+			okHosts := make([][2]string, len(codes))
+			for i := range codes {
+				codes[i] = rng.Uint32()
+				if i < 2*n+4 {
+					codes[i] = uint32(i)
+				}
+				a, _ := before.Select(msg(codes[i]))
+				b, _ := after.Select(msg(codes[i]))
+				okHosts[i] = [2]string{a.Host, b.Host}
+			}
+			s := k.f()
+			s.Refresh(append([]endpoint.Endpoint(nil), base...))
+			var stop int32
+			var wg sync.WaitGroup
+			for g := 0; g < 6; g++ {
+				wg.Add(1)
+				go func(g int) {
+					defer wg.Done()
+					defer func() {
+						if r := recover(); r != nil {
+							problem(fmt.Sprintf("panic: %s lookups concurrent with %s: %v", k.name, how, r))
+						}
+					}()
+					for j := g; atomic.LoadInt32(&stop) == 0; j++ {
+						i := j % len(codes)
+						e, err := s.Select(msg(codes[i]))
+						atomic.AddInt64(&lookups, 1)
+						if err != nil {
+							problem(fmt.Sprintf("select-error-on-nonempty-set: %s concurrent with %s: %v", k.name, how, err))
+							return
+						}
+						if e.Host != okHosts[i][0] && e.Host != okHosts[i][1] {
+							problem(fmt.Sprintf("third-endpoint: %s: code %d answered with %s while the set alternates (%s of %s) between %d endpoints, where the code belongs to %s, and those plus %s, where it belongs to %s", k.name, codes[i], e.Host, how, x.Host, n, okHosts[i][0], x.Host, okHosts[i][1]))
+							return
+						}
+					}
+				}(g)
+			}
+			cycles := iters/250 + 3
+			for c := 0; c < cycles; c++ {
+				atomic.AddInt64(&updates, 2)
+				if how == "add-remove" {
+					_ = s.Add(x)
+					_ = s.Remove(x)
+				} else {
+					s.Refresh(append([]endpoint.Endpoint(nil), with...))
+					s.Refresh(append([]endpoint.Endpoint(nil), base...))
+				}
+			}
+			atomic.StoreInt32(&stop, 1)
+			wg.Wait()
+		}
+	}
+	return lookups, updates
+}
+
+// managerConc - the same through the endpoint manager: calls with a hash code select their adapter while the health
+// check takes an endpoint out (checkStatus after six failures) and an answered probe brings it back (reset +
+// addAliveEp), again and again.  Every call must get the endpoint its code has with or without that endpoint
+// (mod-hash: in the manager's list without it, or with it appended - the order the selector has after the first
+// reinstatement), never a third one, never none.
+type raceRegistrar struct{ active []endpointf.EndpointF }
+
+func (r *raceRegistrar) Registry(context.Context, *tarsreg.ServantInstance) error   { return nil }
+func (r *raceRegistrar) Deregister(context.Context, *tarsreg.ServantInstance) error { return nil }
+func (r *raceRegistrar) QueryServant(context.Context, string) ([]tarsreg.Endpoint, []tarsreg.Endpoint, error) {
+	return append([]endpointf.EndpointF(nil), r.active...), nil, nil
+}
+func (r *raceRegistrar) QueryServantBySet(ctx context.Context, id, set string) ([]tarsreg.Endpoint, []tarsreg.Endpoint, error) {
+	return r.QueryServant(ctx, id)
+}
+
+func managerConc(iters int, seed int64, problem func(string)) (lookups, updates int64) {
+	rng := rand.New(rand.NewSource(seed + 77))
+	n := 8 + rng.Intn(9)
+	reg := &raceRegistrar{}
+	byHost := map[string]endpoint.Endpoint{}
+	for i := 0; i < n; i++ {
+		f := endpointf.EndpointF{Host: fmt.Sprintf("10.5.0.%d", i+1), Port: 10000, Timeout: 3000, Istcp: 1}
+		reg.active = append(reg.active, f)
+		byHost[f.Host] = endpoint.Tars2endpoint(f)
+	}
+	m := tars.VerifC15NewManager("VerifC14.Conc.Obj", tars.NewCommunicator(tars.Registrar(reg)))
+	if err := m.Refresh(); err != nil {
+		problem("manager-setup: refresh failed: " + err.Error())
+		return
+	}
+	order := m.ActiveEp()
+	sorted := append([]string(nil), order...)
+	sort.SliceStable(sorted, func(i, j int) bool {
+		return crc32.ChecksumIEEE([]byte(byHost[sorted[i]].Key)) < crc32.ChecksumIEEE([]byte(byHost[sorted[j]].Key))
+	})
+	victim := order[rng.Intn(len(order))]
+	var adp *tars.AdapterProxy
+	for i := 0; i < 4000 && adp == nil; i++ {
+		m.Select(false, tars.ModHash, 0)
+		adp = m.Adapters()[victim]
+	}
+	if adp == nil || len(order) != n {
+		problem(fmt.Sprintf("manager-setup: %d of %d endpoints active, adapter of %s: %v", len(order), n, victim, adp != nil))
+		return
+	}
+	cycle := func() {
+		for j := 0; j < 6; j++ {
+			adp.VerifC15FailAdd()
+		}
+		m.CheckStatus()
+		m.Reinstate(adp)
+	}
+	cycle() // from now on the selectors' own lists alternate between `without` and `without ++ [victim]`
+	var without, with []endpoint.Endpoint
+	for _, h := range order {
+		if h != victim {
+			without = append(without, byHost[h])
+		}
+	}
+	with = append(append([]endpoint.Endpoint(nil), without...), byHost[victim])
+	type ref struct{ a, b selector.Selector }
+	refs := map[tars.HashType]ref{
+		tars.ModHash:        {modhash.New(false), modhash.New(false)},
+		tars.ConsistentHash: {consistenthash.New(false, consistenthash.KetamaHash), consistenthash.New(false, consistenthash.KetamaHash)},
+	}
+	for _, r := range refs {
+		r.a.Refresh(append([]endpoint.Endpoint(nil), without...))
+		r.b.Refresh(append([]endpoint.Endpoint(nil), with...))
+	}
+	codes := make([]uint32, 300)
+	for i := range codes {
+		codes[i] = rng.Uint32()
+		if i < 3*n {
+			codes[i] = uint32(i)
+		}
+	}
+	var stop int32
+	var wg sync.WaitGroup
+	for g := 0; g < 6; g++ {
+		wg.Add(1)
+		go func(g int) {
+			defer wg.Done()
+			defer func() {
+				if r := recover(); r != nil {
+					problem(fmt.Sprintf("panic: SelectAdapterProxy concurrent with the health check: %v", r))
+				}
+			}()
+			ht := []tars.HashType{tars.ModHash, tars.ConsistentHash}[g%2]
+			for j := g; atomic.LoadInt32(&stop) == 0; j++ {
+				code := codes[j%len(codes)]
+				a, _ := m.Select(true, ht, code)
+				atomic.AddInt64(&lookups, 1)
+				if a == nil {
+					problem(fmt.Sprintf("no-adapter-through-manager: hash type %d code %d", ht, code))
+					return
+				}
+				ea, _ := refs[ht].a.Select(msg(code))
+				eb, _ := refs[ht].b.Select(msg(code))
+				if h := a.GetPoint().Host; h != ea.Host && h != eb.Host {
+					problem(fmt.Sprintf("third-endpoint-through-manager: hash type %d code %d sent to %s while the health check takes %s out and brings it back; without it the code belongs to %s, with it to %s", ht, code, h, victim, ea.Host, eb.Host))
+					return
+				}
+			}
+		}(g)
+	}
+	for c := 0; c < iters/100+10; c++ {
+		atomic.AddInt64(&updates, 2)
+		cycle()
+	}
+	atomic.StoreInt32(&stop, 1)
+	wg.Wait()
+	_ = sorted
+	return lookups, updates
 }
